@@ -203,7 +203,7 @@ def run(shard, ctx):
             names = [gen_name(rng) for _ in range(rng.randint(1, 9))]
             if rng.random() < 0.3:
                 names.append(rng.choice(names))
-            ranks = [rng.choice([1, 2, 3]) for _ in names] if rng.random() < 0.5 else None
+            ranks = [rng.choice([0, 1, 2, 3]) for _ in names] if rng.random() < 0.5 else None
             check_set(ctx, names, ranks, perms=shard.get("perms", 6), rng=rng)
     ctx.count("monitor_evals:name_natural_key", contracts.evals("C20.name_natural_key"))
 
